@@ -802,6 +802,34 @@ func (c *SpecCtx) call(e *SCall) Val {
 		x.S.DeclareFun("errors_is", []string{"Int", "Int"}, "Bool")
 		x.S.Axiom("errors_is", []string{"errors_is"}, "(forall ((e Int) (t Int)) (! (and (=> (and (= e t)) (errors_is e t)) (=> (and (= e 0) (not (= t 0))) (not (errors_is e t)))) :pattern ((errors_is e t))))")
 		return specVal("(errors_is "+a.S+" "+b.S+")", "Bool")
+	case "ufn":
+		// ufn(name, ResultType, args...): uninterpreted spec function of the
+		// argument values at the current heap version
+		id, ok := e.Args[0].(*SIdent)
+		if !ok {
+			sfail("ufn needs a name")
+		}
+		tn := ""
+		switch t := e.Args[1].(type) {
+		case *SIdent:
+			tn = t.Name
+		case *SField:
+			if b, ok := t.X.(*SIdent); ok {
+				tn = b.Name + "." + t.Name
+			}
+		}
+		rt := c.lookupType(tn)
+		var as, sorts []string
+		for i := 2; i < len(e.Args); i++ {
+			v := arg(i)
+			as = append(as, v.S)
+			sorts = append(sorts, x.sortOf(v))
+		}
+		as = append(as, fmt.Sprint(c.st.hver))
+		sorts = append(sorts, "Int")
+		name := "ufn_" + id.Name
+		x.S.DeclareFun(name, sorts, x.te.Sort(rt))
+		return Val{S: App(name, as...), T: rt}
 	case "uf":
 		// uf(name, args...) : uninterpreted Int-valued function of Int arguments
 		id := e.Args[0].(*SIdent)
